@@ -19,7 +19,7 @@ ID = "C09"
 META = {
     "level": "exploration",
     "rule": "a case = one raw world (decimals {6,8,18}^2, fee {0.01,0.05,0.3,1}%, tick path walk/jump/calm/flat/anchors "
-    "around 3-6 ranges placed in/above/below the price, float or int64 tick columns) run as pool A (token0 = quote) and "
+    "around 3-6 ranges placed in/above/below the price, float or int64 tick columns; prices on ticks, inside ticks, or on range bounds) run as pool A (token0 = quote) and "
     "as its mirror, with one script of 6-16 operations in base/quote terms over 6-16 bars; every compared value is one "
     "evaluation. Non-trivial = an operation (or a per-bar read) with at least one compared result of non-zero magnitude; "
     "distinct by (operation, price-vs-range class, outcome/branch, argument class, decimals pair, fee, tolerance class).",
@@ -32,8 +32,14 @@ META = {
         "largest amount of that token seen so far in the script, not to a remainder that may be a cancellation residue",
         "estimate_amount legs and add_liquidity_by_value used amounts are measured relative to the value asked for (a leg "
         "that is a tiny share of the value is not held to 0.1 % of itself)",
-        "no path tick and no opening tick is within 1 tick of a range bound used by the script (ranges are half-open, the "
-        "mirror of [l,u) is (-u,-l]); " + MR.tick_domain_note,
+        "three kinds of worlds. on-tick (60 %): prices are tick prices as demeter prepares them and no path tick / opening tick "
+        "is within 1 tick of a range bound used by the script (fee accrual classifies by tick over half-open ranges, the mirror of "
+        "[l,u) is (-u,-l]). off-tick (25 %): the same, but the bar's price column is moved 0.05-0.95 of a tick into its tick (both "
+        "orientations are handed the identical Decimal). on-bound (15 %, half of them with such offsets): closes exactly on range "
+        "bounds or on the last tick below one, and no volume at all (no fees), so that only the sqrt-price based results are "
+        "compared there. In the last two kinds every token amount is measured against the largest amount of that token seen so far "
+        "in the script (next to a bound the vanishing token is L x a difference of two nearly equal integer sqrt prices). "
+        + MR.tick_domain_note,
         "prices handed to add_liquidity are the prices of ticks at most spacing/2-2 away from a usable tick (bounds on a "
         "grid of 4 for spacing 2), so that the +-1 of the floor in price->tick cannot change the usable tick; the tick= "
         "argument of add_liquidity_by_tick is never +-1 (-1 is the function's 'not given' sentinel)",
@@ -120,6 +126,26 @@ class Pair:
         raw_path = W.tick_path(rng, self.n, c, self.path_kind, self.bounds, step)
         self.ticks = [MR.safe_tick(t, self.bounds) for t in raw_path]
         self.open_tick = MR.safe_tick(c, self.bounds)
+        # where the price sits relative to the tick grid:
+        #  on-tick   what demeter's own preparation produces (price column = price of the previous close tick)
+        #  off-tick  the price column is moved inside its tick (a pool's sqrt price is continuous; users may supply it)
+        #  on-bound  closes exactly on range bounds.  Fee accrual classifies by tick over half-open ranges, which is not
+        #            mirror-symmetric on a bound, so these worlds have no volume (no fees); amounts, values, liquidity
+        #            and wallet moves are sqrt-price based and continuous there, hence comparable
+        self.price_mode = rng.choices(["on-tick", "off-tick", "on-bound"], [0.6, 0.25, 0.15])[0]
+        self.off = [Decimal(0)] * self.n
+        self._off_prices = None
+        if self.price_mode == "on-bound":
+            # the bounds themselves and the last tick below each (with an offset: a price inside the first / last tick of a range)
+            edges = sorted({b - k for r in self.ranges for b in r for k in (0, 0, 1)})
+            self.ticks = [rng.choice(edges) if rng.random() < 0.5 else t for t in self.ticks]
+            if rng.random() < 0.4:
+                self.open_tick = rng.choice(edges)
+            if rng.random() < 0.5:
+                self.price_mode = "on-bound+off-tick"
+                self.off = [Decimal(str(rng.choice([0, 0.05, 0.5, 0.95, round(rng.uniform(0.05, 0.95), 6)]))) for _ in range(self.n)]
+        if self.price_mode == "off-tick":
+            self.off = [Decimal(str(rng.choice([0, 0.05, 0.25, 0.5, 0.95, round(rng.uniform(0.05, 0.95), 6)]))) for _ in range(self.n)]
         self.index = [W.T0 + timedelta(minutes=i) for i in range(self.n)]
         self.liq_exp = rng.uniform(6, 30)
         liq = [10**self.liq_exp * rng.uniform(0.5, 1.5) for _ in range(self.n)]
@@ -128,6 +154,8 @@ class Pair:
             (0 if rng.random() < 0.1 else rng.uniform(0, vs) * 10**self.dq, 0 if rng.random() < 0.1 else rng.uniform(0, vs) * 10**self.db)
             for _ in range(self.n)
         ]
+        if self.price_mode.startswith("on-bound"):
+            vols = [(0, 0)] * self.n
         self.tick_dtype = rng.choice(["float", "int"])
         self.raw_a = W.uni_raw(rng, self.index, self.ticks, self.open_tick, liq, vols, self.tick_dtype)
         self.raw_m = MR.mirror_raw(self.raw_a)
@@ -155,13 +183,24 @@ class Pair:
         m = UniLpMarket(MarketInfo("uni", MarketTypeEnum.uniswap_v3), self.pool_m if mirrored else self.pool_a)
         df = (self.raw_m if mirrored else self.raw_a).copy()
         m.add_statistic_column(df)
+        if self.price_mode.endswith("off-tick"):
+            # base price falls as A's tick rises: a price f of a tick above tick t (A's frame) is price(t) * 1.0001^-f.
+            # Both orientations are handed the very same Decimal (their own tick prices differ by 1e-17 relative, a float
+            # 10**-12 in the helper; next to a bound that would be a different distance from the bound)
+            # A bar without offset keeps each pool's own tick price (what the preparation produced).
+            if self._off_prices is None:
+                if mirrored:
+                    self.market(False)  # computes them from A's prepared prices
+                else:
+                    self._off_prices = [p * (Decimal("1.0001") ** (-f)) if f else None for p, f in zip(df["price"], self.off)]
+            df["price"] = [own if shared is None else shared for own, shared in zip(df["price"], self._off_prices)]
         m.data = df
         return m
 
     def describe(self):
         return {
             "dec_quote": self.dq, "dec_base": self.db, "fee": self.fee, "center_tick_A": self.center, "path": self.path_kind,
-            "ticks_A": self.ticks, "open_tick_A": self.open_tick, "ranges_A": self.ranges, "tick_dtype": self.tick_dtype,
+            "price_mode": self.price_mode, "ticks_A": self.ticks, "open_tick_A": self.open_tick, "ranges_A": self.ranges, "tick_dtype": self.tick_dtype,
             "wallet": {k: str(v) for k, v in self.wallet.items()}, "pool_liq_exp": round(self.liq_exp, 2),
         }
 
@@ -236,6 +275,11 @@ def gen_script(rng, pair, allow_estimate_state):
         elif op == "helpers":
             st.update(r=r, d=rng.randint(-max(0, pair.sp // 2 - 2), max(0, pair.sp // 2 - 2)))
         steps.append(st)
+        if op == "add_value" and st["fv"] is None and rng.random() < 0.4:
+            # re-balancing idiom: everything into the range, take it out again, put it back in the same bar: the wallet then
+            # holds exactly the split of the range
+            steps.append({"bar": bar, "phase": st["phase"], "op": "remove", "pos": 0, "last": True, "fl": None, "collect": True, "dry": False})
+            steps.append({"bar": bar, "phase": st["phase"], "op": "add_value", "r": r, "fv": None})
     return steps
 
 
@@ -445,7 +489,7 @@ class Runner:
                 summ.update(cls="-", outcome="skipped", arg="-")
                 self.summaries.append(summ)
                 return
-            pos = self.positions[st["pos"] % len(self.positions)]
+            pos = self.positions[-1] if st.get("last") else self.positions[st["pos"] % len(self.positions)]
             ka = MR.to_frame_a(pos, self.mir)
             cls = self.pvr(bar, ka)
             live = pos in m.positions
@@ -667,7 +711,12 @@ def compare(mon, pair, ra, rm, case_no, sticky_possible):
         tol = MR.ESTIMATE if est else MR.EXACT
         scale = None
         rkey = ("pending-" + str(oa.unit)) if oa.kind == "pending" else oa.unit
-        if oa.kind in ("wallet", "pending"):
+        near = pair.price_mode != "on-tick" and oa.kind in ("amt", "est") and oa.unit in ("base", "quote")
+        if oa.kind in ("wallet", "pending") or near:
+            # in the worlds whose prices come within a tick of a range bound the vanishing token of a position is L x (a
+            # difference of two nearly equal integer sqrt prices): its own relative precision is that of the integer grid
+            # (1e-10 at tick -270000), and what is later traded out of such a remainder inherits it; there every amount is
+            # measured, like a wallet balance, against the largest amount of its token seen so far
             scale = runmax.get(rkey)
             if oa.field == "pending_value":  # = pending base * price + pending quote
                 bar_s = oa.label.split("/")[0]
@@ -771,7 +820,8 @@ def one_case(mon, rng, c):
     if crossing and any(s["op"].startswith("add") and s.get("nz") for s in ra.summaries):
         mon.hit("scripts_with_crossing_bars")
         mon.nt(f"fee-path/{pair.path_kind}/cross{min(crossing, 6)}/{pair.dq}-{pair.db}/{pair.fee}/{pair.tick_dtype}")
-    mon.nt(f"world/{pair.price_kind}/{pair.wallet_kind}/{pair.path_kind}/{pair.dq}-{pair.db}/{pair.fee}")
+    mon.nt(f"world/{pair.price_kind}/{pair.wallet_kind}/{pair.path_kind}/{pair.dq}-{pair.db}/{pair.fee}/{pair.price_mode}")
+    mon.hit(f"worlds/{pair.price_mode}")
     mon.sample(
         {"world": pair.describe(), "script": steps[:8], "observations_compared": len(ra.obs), "tolerance_class": tolclass,
          "worst_relative_difference": {k: float(v) for k, v in worst.items()},
